@@ -155,3 +155,10 @@ CLAIMS["C08"] = (
     "libsbml is imported only to read its class dictionary; no MxlPy code runs. Reference table of MathML meanings is the trusted base.",
     "DESIGN.md section 4 C08",
 )
+CLAIMS["C17"] = (
+    "key-uniqueness dependence analysis of the generated module's name and file path (expansion through local definitions back to the document path/content), agreement check of definition and call argument lists across the import/codegen boundary, exhaustiveness of the stoichiometry transform, write-before-import ordering",
+    "A thin structural slice of the import path: (U1) the module key and file name depend on the document's resolved path/content, so two documents read in one session cannot overwrite each other's generated source - the 'do not interfere' clause; (U2) every generated function is defined and called with the same argument-list expression (free symbols of its own expression; def parameters = that list); "
+    "(U4) every stoichiometry shape (number, symbol, expression) is carried over; (U5) the source is written and closed before the module is executed and the model comes from that module. Fidelity of the equations to the document rests on pysbml and is NOT decided; silently skipped initial assignments on other targets are reported as INFO only.",
+    "pysbml's transformation is outside the analysed code; digest injectivity is assumed.",
+    "DESIGN.md section 4 C17, Appendix A.6",
+)
